@@ -457,7 +457,11 @@ pub fn execute_program(
                     // Call helper function
                     0 => {
                         if let Some(function) = helpers.get(&(insn.imm as u32)) {
+                            #[cfg(all(rbpf_verif, feature = "std"))]
+                            let args = [reg[1], reg[2], reg[3], reg[4], reg[5]];
                             reg[0] = function(reg[1], reg[2], reg[3], reg[4], reg[5]);
+                            #[cfg(all(rbpf_verif, feature = "std"))]
+                            crate::verif::helper_called(insn.imm as u32, args, reg[0]);
                         } else {
                             Err(Error::other(
                                 format!(
